@@ -91,6 +91,9 @@ def emit(pairs):
             if ev.get("ok"):
                 lines.append(f"Definition e{k}_{j} : impl_result := {H.impl_to_coq({'ok': True, 'tree': ev['tree']})}.")
                 parts.append(f"check_highwater_src r{k} e{k}_{j} [[]]")
+                # every input was given a number (zeros included): nothing symbolic is left in the evaluated hierarchy
+                if H.tree_input_params(ev["tree"]) or '"s"' in __import__("json").dumps(ev["tree"]["resources"]):
+                    parts.append("([], [1%nat])")
             elif ev.get("exc") != "BartiqCompilationError":
                 parts.append("([1%nat], [1%nat])")
         items.append("(let rs := " + E.coq_list(parts) + " in (flat_map fst rs, flat_map snd rs))")
